@@ -278,7 +278,7 @@ Proof.
     unfold is_idle in Hn. destruct (tpc th); congruence.
   - apply andb_true_iff in H as [H1 H2]. destruct t' as [|t']; cbn in Hn.
     + injection Hn as <-. unfold is_idle in H1. destruct (tpc a); congruence.
-    + eapply IH; [exact H2 | intro; subst; apply N; reflexivity | exact Hn].
+    + apply (IH t t' th H2); [lia | exact Hn].
 Qed.
 
 Lemma status_of_initial : status_of INITIAL = INITIAL.
@@ -288,3 +288,85 @@ Lemma stat_set_word : forall s i w j, stat (set_slots s (set_word i w (slots s))
 Proof. intros. unfold stat, wordat. cbn [slots set_slots]. rewrite get_set_word. destruct (Nat.eqb j i); reflexivity. Qed.
 Lemma valat_set_word : forall s i w j, valat (set_slots s (set_word i w (slots s))) j = valat s j.
 Proof. intros. unfold valat. cbn [slots set_slots]. rewrite get_set_word. destruct (Nat.eqb_spec j i) as [->|]; reflexivity. Qed.
+
+Lemma stable_refl : forall t s, stable t s s.
+Proof. intros. unfold stable. repeat split; auto. Qed.
+
+Lemma tinv_goto_cons : forall s t th p i e b, cons_gen s th -> cons_pos p = Some (i, e, b) ->
+  (match p with CHand _ _ _ _ => False | _ => True end) ->
+  e = b + req th -> (cepoch th = epoch s -> b = cursor th /\ b <= i < e /\ (forall j, j < i -> stat s j = PUBLISHED)) ->
+  tinv s t (goto th p).
+Proof.
+  intros s t th p i e b Hc Hpos Hnh He H. split; [exact Hc|]. unfold pc_inv. cbn [tpc goto].
+  destruct p; cbn [cons_pos] in *; try discriminate; try contradiction; injection Hpos as -> -> ->; (split; [exact He | exact H]).
+Qed.
+
+Lemma tinv_goto_slow : forall s t th i e b cur, cons_gen s th ->
+  e = b + req th -> (cepoch th = epoch s -> b = cursor th /\ b <= i < e /\ (forall j, j < i -> stat s j = PUBLISHED)) ->
+  tinv s t (goto th (slow i e b cur)).
+Proof.
+  intros. unfold slow. destruct (wait_loop _); [destruct (can_register _)|]; eapply tinv_goto_cons; eauto; reflexivity.
+Qed.
+
+Lemma tinv_idle : forall s t th1, cons_gen s th1 -> tpc th1 = Idle -> tinv s t th1.
+Proof. intros s t th1 Hc Hpc. split; [exact Hc|]. unfold pc_inv. rewrite Hpc. exact I. Qed.
+
+Lemma nth_error_app_map : forall (l : list (Z * (nat * nat))) (vals : list Z) o j, length l <= j < length l + length vals ->
+  nth_error (l ++ map (fun v => (v, o)) vals) j = Some (nth (j - length l) vals 0%Z, o).
+Proof.
+  intros l vals o j H. rewrite nth_error_app2 by lia. rewrite nth_error_map.
+  rewrite (nth_error_nth' vals 0%Z) by lia. reflexivity.
+Qed.
+
+Ltac open_case HI Hown Hpc M HG HT Hc Hp :=
+  intro M; change (misuse _ = false) in M; destruct (HI M) as [HG HT]; destruct (Hown M) as [Hc Hp];
+  unfold pc_inv in Hp; rewrite Hpc in Hp; cbn [cons_pos] in Hp.
+
+Lemma step_inv : forall s t s', Inv s -> step s t = Some s' -> Inv s'.
+Proof.
+  intros s t s' HI Hs. unfold step in Hs. destruct (nth_error (threads s) t) as [th|] eqn:Hth; [|discriminate].
+  assert (Hown : misuse s = false -> tinv s t th) by (intro M; destruct (HI M) as [_ HT]; exact (HT t th Hth)).
+  unfold step_thread in Hs. destruct (tpc th) eqn:Hpc.
+  - (* Idle *) admit.
+  - (* PFill *) admit.
+  - (* PStore *) admit.
+  - (* PWakeLoad *) admit.
+  - (* PWakeCas *) admit.
+  - (* PWakeAll *) admit.
+  - (* XStore *) admit.
+  - (* CClosed *)
+    cbv zeta in Hs. destruct (Z.eqb_spec (status_of (wordat s i)) closed_test) as [Ec|Ec]; injection Hs as <-;
+      open_case HI Hown Hpc M HG HT Hc Hp; destruct Hp as [He Hp];
+      refine (finish_case s _ t th _ HG HT Hth eq_refl (stable_refl _ _) HG _).
+    + split; [exact Hc|]. unfold pc_inv. cbn [tpc goto]. split; [exact He|]. intro E. destruct (Hp E) as (B1 & B2 & B3).
+      replace (b + (i - b)) with i by lia. repeat split; auto; try discriminate.
+      intros _. destruct HG as (_ & _ & _ & G4). apply G4. exact Ec.
+    + eapply tinv_goto_cons; eauto; reflexivity.
+  - (* CPub *)
+    cbv zeta in Hs. destruct (Z.eqb_spec (status_of (wordat s i)) published_test) as [Ec|Ec];
+      [destruct (Nat.eqb_spec (S i) e) as [Ee|Ee]|]; injection Hs as <-;
+      open_case HI Hown Hpc M HG HT Hc Hp; destruct Hp as [He Hp];
+      refine (finish_case s _ t th _ HG HT Hth eq_refl (stable_refl _ _) HG _).
+    + split; [exact Hc|]. unfold pc_inv. cbn [tpc goto]. split; [exact He|]. intro E. destruct (Hp E) as (B1 & B2 & B3).
+      replace (b + (S i - b)) with (S i) by lia. repeat split; auto; try discriminate; try lia.
+      intros j Hj. destruct (Nat.eq_dec j i) as [->|]; [exact Ec | apply B3; lia].
+    + eapply tinv_goto_cons; eauto; try reflexivity. intro E. destruct (Hp E) as (B1 & B2 & B3). repeat split; auto; try lia.
+      intros j Hj. destruct (Nat.eq_dec j i) as [->|]; [exact Ec | apply B3; lia].
+    + eapply tinv_goto_cons; eauto; reflexivity.
+  - (* CReady *)
+    cbv zeta in Hs. destruct (ready_fast _); injection Hs as <-;
+      open_case HI Hown Hpc M HG HT Hc Hp; destruct Hp as [He Hp];
+      refine (finish_case s _ t th _ HG HT Hth eq_refl (stable_refl _ _) HG _).
+    + eapply tinv_goto_cons; eauto; reflexivity.
+    + apply tinv_goto_slow; auto.
+  - (* CCas *) admit.
+  - (* CWait *)
+    destruct (Z.eqb _ _); injection Hs as <-;
+      open_case HI Hown Hpc M HG HT Hc Hp; destruct Hp as [He Hp];
+      refine (finish_case s _ t th _ HG HT Hth eq_refl (stable_refl _ _) HG _); eapply tinv_goto_cons; eauto; reflexivity.
+  - (* CBlocked *) discriminate.
+  - (* CReload *)
+    injection Hs as <-. open_case HI Hown Hpc M HG HT Hc Hp; destruct Hp as [He Hp].
+    refine (finish_case s _ t th _ HG HT Hth eq_refl (stable_refl _ _) HG _). apply tinv_goto_slow; auto.
+  - (* CHand *) admit.
+Admitted.
